@@ -11,7 +11,8 @@ use serde::{Deserialize, Serialize};
 
 #[derive(Clone, Debug, Serialize, Deserialize, PartialEq, Eq)]
 pub struct BigCase {
-    /// 0 chain, 1 layered (fan <= 3), 2 fan-in, 3 fan-out, 4 chain with side inputs
+    /// 0 chain, 1 layered (fan <= 3), 2 fan-in, 3 fan-out, 4 chain with side inputs,
+    /// 5 dense layers (root, then layers of `width` jobs, consecutive layers fully connected)
     pub shape: u8,
     pub n: usize,
     pub width: usize,
@@ -30,7 +31,7 @@ pub struct BigCase {
     pub outnames: bool,
 }
 
-pub const SHAPES: [&str; 5] = ["chain", "layered", "fan-in", "fan-out", "chain+side-inputs"];
+pub const SHAPES: [&str; 6] = ["chain", "layered", "fan-in", "fan-out", "chain+side-inputs", "dense-layers"];
 pub const CASCADES: [&str; 6] = ["first-build", "up-to-date-rerun", "invalidate-first", "invalidate-last", "fail-root", "abort-midway+resume"];
 
 fn log_size(b1: u8, b2: u8, lo: usize, hi: usize) -> usize {
@@ -42,10 +43,11 @@ fn log_size(b1: u8, b2: u8, lo: usize, hi: usize) -> usize {
 
 pub fn decode_big(data: &[u8], max_n: usize) -> BigCase {
     let mut s = Src::new(data);
-    let shape = s.below(5) as u8;
+    let shape = s.below(6) as u8;
     let (b1, b2) = (s.u8(), s.u8());
     let cap = match shape {
         2 => max_n.min(6000), // the engine is quadratic in the fan-in of one job
+        5 => max_n.min(1500), // edges grow with width^2
         _ => max_n,
     };
     let n = log_size(b1, b2, 61.min(cap), cap);
@@ -54,6 +56,7 @@ pub fn decode_big(data: &[u8], max_n: usize) -> BigCase {
             let w = log_size(s.u8(), s.u8(), 2, (n / 2).max(2));
             w
         }
+        5 => log_size(s.u8(), s.u8(), 8, (n / 2).clamp(8, 400)),
         _ => {
             s.u8();
             s.u8();
@@ -76,8 +79,11 @@ pub fn decode_big(data: &[u8], max_n: usize) -> BigCase {
 }
 
 fn kind_at(c: &BigCase, i: usize, is_sink: bool, layer: usize) -> Kind {
-    let pos = if c.shape == 1 { layer } else { i };
-    match c.pattern {
+    let pos = if c.shape == 1 || c.shape == 5 { layer } else { i };
+    // dense layers: no runs of all-Ephemeral layers (the engine's unmemoised recursions are
+    // exponential in the number of Ephemeral-only paths: time, not verdict)
+    let pattern = if c.shape == 5 { [0u8, 1, 2, 2, 7, 5, 2, 7][c.pattern as usize % 8] } else { c.pattern };
+    match pattern {
         0 => Kind::Output,
         1 => Kind::Always,
         2 => {
@@ -139,7 +145,7 @@ pub fn build_big(c: &BigCase) -> Scenario {
     let mut init = Vec::with_capacity(n);
     let w = c.width.max(1);
     for i in 0..n {
-        let layer = i / w;
+        let layer = if c.shape == 5 { if i == 0 { 0 } else { (i - 1) / w + 1 } } else { i / w };
         let mut deps: Vec<(usize, u8)> = vec![];
         let is_sink;
         match c.shape {
@@ -175,6 +181,17 @@ pub fn build_big(c: &BigCase) -> Scenario {
                     deps.push((0, 1));
                 }
                 is_sink = i > 0;
+            }
+            5 => {
+                if layer == 1 {
+                    deps.push((0, 1));
+                } else if layer > 1 {
+                    let base = 1 + (layer - 2) * w;
+                    for u in base..(base + w).min(n) {
+                        deps.push((u, 1));
+                    }
+                }
+                is_sink = 1 + layer * w >= n;
             }
             _ => {
                 // chain on the even slots, every odd slot is a side input of the next chain link
@@ -303,7 +320,7 @@ pub fn run_big(c: &BigCase) -> BigResult {
 pub fn describe_big(c: &BigCase) -> String {
     format!(
         "{} n={} width={} kinds=pattern{}(period {}) cascade={} coarse_every={} stamps={} consumed-only={} output-names={}",
-        SHAPES[c.shape as usize % 5], c.n, c.width, c.pattern, c.period, CASCADES[c.cascade as usize % 6], c.coarse_every, c.stamps, c.consumed, c.outnames
+        SHAPES[c.shape as usize % 6], c.n, c.width, c.pattern, c.period, CASCADES[c.cascade as usize % 6], c.coarse_every, c.stamps, c.consumed, c.outnames
     )
 }
 
